@@ -606,7 +606,9 @@ class DataLinkConnection(TransmissionControlObject):
                 send_pdu = pdu.Disconnect(self.peer, self.addr)
                 self.send_queue.append(send_pdu)
                 try:
-                    super(DataLinkConnection, self).recv()
+                    # wait for the DM, received data may still be queued
+                    while super(DataLinkConnection, self).recv().name != "DM":
+                        pass
                 except IndexError:
                     pass
             super(DataLinkConnection, self).close()
